@@ -20,19 +20,39 @@
 (* TLC must find the history / interleaving that makes an answer depend on  *)
 (* earlier calls.                                                           *)
 (***************************************************************************)
-EXTENDS Naturals, Integers, Sequences, FiniteSets, TLC, NdContract
+EXTENDS Naturals, Integers, Sequences, FiniteSets, TLC, NdContract, SplineRef, BilinearRef
 
 CONSTANTS Threads, MaxCalls, Hint
 
-\* ---- a small concrete universe ------------------------------------------------
-Axes == {<<"0", "2", "4">>, <<"0", "2", "2">>, <<"0", "NaN", "4">>, <<"0", "2">>}     \* valid, tie, NaN, too short
-DataCol == <<"1", "5", "3">>
-Strats == {[k |-> "Linear", ex |-> 0], [k |-> "Linear", ex |-> 1]}
+\* ---- a small concrete universe (definitions, so that a configuration can substitute a larger one) -----
+Axes3 == {<<"0", "2", "4">>, <<"0", "1", "4">>, <<"0", "2", "2">>, <<"0", "NaN", "4">>, <<"0", "2">>}   \* valid (even, uneven), tie, NaN, too short
+Axes4 == Axes3 \cup {<<"0", "1", "4", "6">>}
+Axes == Axes3
+Datas1 == {<<"1", "5", "3">>}
+Datas3 == {<<"1", "5", "3">>, <<"1", "5", "1">>, <<"1", "5", "3", "1">>}          \* the last two have equal ends (periodic data)
+Datas == Datas1
+StratsLinear == {[k |-> "Linear", ex |-> 0], [k |-> "Linear", ex |-> 1]}
+StratsSpline == {[k |-> "Spline", ex |-> e, bc |-> b] : e \in {0, 1}, b \in {"Natural", "NotAKnot", "Periodic"}}
+StratsAll == StratsLinear \cup StratsSpline
+Strats == StratsLinear
 Ids == {1, 2}
+OneId == {1}
 Queries == {"-Inf", "-1", "0", "1", "2", "4", "5", "NaN"}
 QLists == {<<q>> : q \in Queries} \cup {<<a, b>> : a, b \in {"-1", "1", "4", "NaN"}}
 
-Cfg(x, st) == [rank |-> 1, n |-> 3, x |-> x, st |-> st, dshape |-> <<3>>, el |-> "i32", dv |-> <<"1", "5", "3">>]
+\* 2-D (Interp2D): x axes as above, these y axes (valid, tie, too short), one 3 x 2 grid of data
+AxesY == {<<"0", "2">>, <<"1", "1">>, <<"0">>}
+Grid == << <<"1", "5">>, <<"3", "2">>, <<"4", "0">> >>
+StratsBilinear == {[k |-> "Bilinear", ex |-> 0], [k |-> "Bilinear", ex |-> 1]}
+NoStrats == {}
+Strats2 == NoStrats          \* 2-D builds are switched on by a configuration (Strats2 <- StratsBilinear)
+QLists2 == {<< <<a, b>> >> : a \in {"-1", "0", "1", "4", "5", "NaN"}, b \in {"-1", "0", "1", "2", "NaN"}}
+           \cup {<< <<"1", "1">>, <<a, b>> >> : a \in {"4", "5"}, b \in {"0", "NaN"}}
+Cfg2(x, yy, st) == [rank |-> 2, nx |-> Len(Grid), ny |-> Len(Grid[1]), x |-> x, y |-> yy, z |-> Grid, st |-> st,
+                    dshape |-> <<Len(Grid), Len(Grid[1])>>]
+
+\* the inputs of build(): axis, one lane of data (decimal payloads, hence el = "i32" for the decoder), strategy
+Cfg(x, y, st) == [rank |-> 1, n |-> Len(y), x |-> x, y |-> y, st |-> st, dshape |-> <<Len(y)>>, el |-> "i32", dv |-> y]
 
 VARIABLES objs, pend, hist, hint, ncalls
 vars == <<objs, pend, hist, hint, ncalls>>
@@ -44,28 +64,53 @@ Init ==
     /\ hint = [i \in Ids |-> 0]
     /\ ncalls = 0
 
-\* ---- Build: Ok iff the inputs are valid, otherwise an error among the violated kinds (C10) ----
-Build(i, x, st) ==
+\* ---- Build: Ok iff the inputs are valid, otherwise an error among the violated kinds (C10).
+\* Like the code, a spline interpolator computes its piecewise cubic ONCE, at build time (sp); queries only read it.
+Build(i, x, y, st) ==
     /\ objs[i].phase = "none"
-    /\ LET cfg == Cfg(x, st) IN
-       objs' = [objs EXCEPT ![i] = IF Valid1(cfg) THEN [phase |-> "interp", cfg |-> cfg]
-                                   ELSE [phase |-> "failed", kinds |-> ViolatedKinds1(cfg)]]
+    /\ LET cfg == Cfg(x, y, st) IN
+       objs' = [objs EXCEPT ![i] =
+                  IF Valid1(cfg)
+                  THEN [phase |-> "interp", cfg |-> cfg,
+                        sp |-> IF st.k = "Spline" THEN SplineOf(x, y, LaneBc(st, "i32", 1)) ELSE [none |-> TRUE]]
+                  ELSE [phase |-> "failed", kinds |-> ViolatedKinds1(cfg)]]
     /\ UNCHANGED <<pend, hist, hint, ncalls>>
 
-\* ---- the reply of a query: a function of (configuration, arguments) only ------------------
+Build2(i, x, yy, st) ==
+    /\ objs[i].phase = "none"
+    /\ LET cfg == Cfg2(x, yy, st) IN
+       objs' = [objs EXCEPT ![i] = IF Valid2(cfg) THEN [phase |-> "interp", cfg |-> cfg, sp |-> [none |-> TRUE]]
+                                   ELSE [phase |-> "failed", kinds |-> ViolatedKinds2(cfg)]]
+    /\ UNCHANGED <<pend, hist, hint, ncalls>>
+
+\* ---- the reply of a query: a function of (interpolator, arguments) only ------------------
+\* a query element is a number (1-D) or a pair <<qx, qy>> (2-D)
+FinQ(cfg, q) == IF cfg.rank = 1 THEN IsFin(q) ELSE IsFin(q[1]) /\ IsFin(q[2])
+InQ(cfg, q) == IF cfg.rank = 1 THEN InRange(cfg.x, q) ELSE InRange(cfg.x, q[1]) /\ InRange(cfg.y, q[2])
 InRangeSeen(i, cfg, q) ==
     \* with the hint (negative self-test): segment 0 is treated as open to the left while it is the hinted one
     IF Hint /\ hint[i] = 1 THEN IsFin(q) /\ NLe(q, cfg.x[Len(cfg.x)]) ELSE InRange(cfg.x, q)
 
+\* the value at a finite query: the line through the bracketing points (C01; the end line outside, C06), or the
+\* cubic of the bracketing interval (C02; the end cubic outside, C06; wrapped by whole periods if periodic, C07)
+ValueAt(o, q) ==
+    LET cfg == o.cfg IN
+    IF cfg.rank = 2 THEN Bil(cfg.x, cfg.y, cfg.z, q[1], q[2])        \* C04 (the end cell outside, C06)
+    ELSE IF cfg.st.k = "Linear" THEN Lin(cfg.x, cfg.y, q)
+    ELSE LET wrap == cfg.st.bc = "Periodic" /\ ~InRange(cfg.x, q)
+             qq == IF wrap THEN Wrap(cfg.x, q) ELSE q
+         IN  SplineAt(o.sp, cfg.x, Bracket(cfg.x, qq), qq)
+
 \* buf: "none" (allocating entry point), "ok" (correctly shaped caller buffer), "bad" (wrong shape: documented panic)
-ReplyOf(i, cfg, qs, buf) ==
+ReplyOf(i, o, qs, buf) ==
     IF buf = "bad" THEN [out |-> "Panic", shape |-> <<>>, vals |-> <<>>] ELSE
-    LET ex == cfg.st.ex = 1
-        ok(q) == IF ex THEN IsFin(q) ELSE InRangeSeen(i, cfg, q)
+    LET cfg == o.cfg
+        ex == cfg.st.ex = 1
+        ok(q) == IF ex THEN FinQ(cfg, q) ELSE IF cfg.rank = 1 THEN InRangeSeen(i, cfg, q) ELSE InQ(cfg, q)
     IN  IF \A k \in 1..Len(qs) : ok(qs[k])
-        THEN [out |-> "Ok", shape |-> OutShape(<<Len(qs)>>, cfg.dshape, 1),
-              vals |-> [k \in 1..Len(qs) |-> Lin(cfg.x, DataCol, qs[k])]]
-        ELSE IF \E k \in 1..Len(qs) : ~IsFin(qs[k]) /\ ex THEN [out |-> "Unspecified", shape |-> <<>>, vals |-> <<>>]
+        THEN [out |-> "Ok", shape |-> OutShape(<<Len(qs)>>, cfg.dshape, cfg.rank),
+              vals |-> [k \in 1..Len(qs) |-> ValueAt(o, qs[k])]]
+        ELSE IF \E k \in 1..Len(qs) : ~FinQ(cfg, qs[k]) /\ ex THEN [out |-> "Unspecified", shape |-> <<>>, vals |-> <<>>]
         ELSE [out |-> "Err:OutOfBounds", shape |-> <<>>, vals |-> <<>>]
 
 Call(t, i, qs, buf) ==
@@ -79,7 +124,7 @@ Return(t) ==
     /\ pend[t].busy
     /\ LET i == pend[t].id
            cfg == objs[i].cfg
-           r == ReplyOf(i, cfg, pend[t].qs, pend[t].buf)
+           r == ReplyOf(i, objs[i], pend[t].qs, pend[t].buf)
            lastq == pend[t].qs[Len(pend[t].qs)]
        IN  /\ hist' = hist \cup {<<i, pend[t].qs, r, pend[t].buf>>}
            /\ hint' = IF Hint /\ r.out = "Ok" /\ ~IsNaN(lastq) THEN [hint EXCEPT ![i] = Bracket(cfg.x, lastq)] ELSE hint
@@ -87,8 +132,10 @@ Return(t) ==
     /\ UNCHANGED <<objs, ncalls>>
 
 Next ==
-    \/ \E i \in Ids, x \in Axes, st \in Strats : Build(i, x, st)
-    \/ \E t \in Threads, i \in Ids, qs \in QLists, buf \in {"none", "ok", "bad"} : Call(t, i, qs, buf)
+    \/ \E i \in Ids, x \in Axes, y \in Datas, st \in Strats : Build(i, x, y, st)
+    \/ \E i \in Ids, x \in Axes, yy \in AxesY, st \in Strats2 : Build2(i, x, yy, st)
+    \/ \E t \in Threads, i \in Ids, buf \in {"none", "ok", "bad"} :
+          \E qs \in (IF objs[i].phase = "interp" /\ objs[i].cfg.rank = 2 THEN QLists2 ELSE QLists) : Call(t, i, qs, buf)
     \/ \E t \in Threads : Return(t)
 Spec == Init /\ [][Next]_vars
 
@@ -96,7 +143,7 @@ Spec == Init /\ [][Next]_vars
 \* C17: an interpolator never changes after build
 Immutable == [][\A i \in Ids : objs[i].phase = "interp" => objs'[i] = objs[i]]_vars
 \* C10: only valid inputs yield an interpolator; an error names a violated requirement
-OnlyValidBuilt == \A i \in Ids : /\ (objs[i].phase = "interp" => Valid1(objs[i].cfg))
+OnlyValidBuilt == \A i \in Ids : /\ (objs[i].phase = "interp" => IF objs[i].cfg.rank = 1 THEN Valid1(objs[i].cfg) ELSE Valid2(objs[i].cfg))
                                  /\ (objs[i].phase = "failed" => objs[i].kinds # {})
 \* C17 / C09: same interpolator, same question => same answer, whatever the history, thread or batch
 SameQuestionSameAnswer ==
@@ -109,11 +156,28 @@ ElementsAgree ==
 \* C05: without extrapolation a query is answered iff every element lies in the closed range
 AnsweredIffInRange ==
     \A h \in hist : LET cfg == objs[h[1]].cfg IN
-        cfg.st.ex = 0 /\ h[4] # "bad" => ((h[3].out = "Ok") <=> \A k \in 1..Len(h[2]) : InRange(cfg.x, h[2][k]))
+        cfg.st.ex = 0 /\ h[4] # "bad" => ((h[3].out = "Ok") <=> \A k \in 1..Len(h[2]) : InQ(cfg, h[2][k]))
 \* C06: with extrapolation no finite query is rejected
 FiniteNeverRejected ==
     \A h \in hist : LET cfg == objs[h[1]].cfg IN
-        cfg.st.ex = 1 /\ h[4] # "bad" /\ (\A k \in 1..Len(h[2]) : IsFin(h[2][k])) => h[3].out = "Ok"
+        cfg.st.ex = 1 /\ h[4] # "bad" /\ (\A k \in 1..Len(h[2]) : FinQ(cfg, h[2][k])) => h[3].out = "Ok"
+\* C01 / C02: every data point is reproduced at its axis value (by the line, and by every spline)
+KnotsReproduced ==
+    \A h \in hist : h[3].out = "Ok" =>
+        LET cfg == objs[h[1]].cfg IN
+        IF cfg.rank = 1
+        THEN \A k \in 1..Len(h[2]), m \in 1..cfg.n : h[2][k] = cfg.x[m] => h[3].vals[k] = cfg.y[m]
+        ELSE \A k \in 1..Len(h[2]), a \in 1..cfg.nx, b \in 1..cfg.ny :
+                h[2][k] = <<cfg.x[a], cfg.y[b]>> => h[3].vals[k] = cfg.z[a][b]
+\* C07: a periodic spline with extrapolation is a periodic function: queries a whole number of periods apart agree
+PeriodicFunction ==
+    \A a, b \in hist : a[1] = b[1] /\ a[3].out = "Ok" /\ b[3].out = "Ok" =>
+        LET cfg == objs[a[1]].cfg
+            P == QSub(cfg.x[cfg.n], cfg.x[1])
+        IN  cfg.rank = 1 /\ cfg.st.k = "Spline" /\ cfg.st.bc = "Periodic" /\ cfg.st.ex = 1 =>
+            \A i \in 1..Len(a[2]), j \in 1..Len(b[2]) :
+                LET d == QSub(a[2][i], b[2][j]) IN
+                QMul(QFloor(QDiv(d, P)), P) = d => a[3].vals[i] = b[3].vals[j]
 \* C09: result shape = query shape ++ trailing data dims
-ShapeOk == \A h \in hist : h[3].out = "Ok" => h[3].shape = <<Len(h[2])>>
+ShapeOk == \A h \in hist : h[3].out = "Ok" => h[3].shape = <<Len(h[2])>>       \* one lane: no trailing axes
 =============================================================================
